@@ -216,7 +216,7 @@ pub fn run(tier: Tier) -> Report {
     let mut base = 0;
     for g in [false, true] {
         for &t in DISTINCT.iter() {
-            let acc = par_chunks(total, chunk, |acc, lo, hi| {
+            let acc = par_chunks_varied(total, chunk, |acc, lo, hi| {
                 let xs = dom.slice(lo, hi);
                 check_curve(acc, t, g, base + lo, &xs);
                 if lo == 0 && t == TC::SRGB {
@@ -227,11 +227,11 @@ pub fn run(tier: Tier) -> Report {
             base += total;
         }
         for &t in ALIASES.iter() {
-            let acc = par_chunks(total, chunk, |acc, lo, hi| check_alias(acc, t, g, base + lo, &dom.slice(lo, hi)));
+            let acc = par_chunks_varied(total, chunk, |acc, lo, hi| check_alias(acc, t, g, base + lo, &dom.slice(lo, hi)));
             rep.acc.merge(acc);
             base += total;
         }
-        let acc = par_chunks(total, chunk, |acc, lo, hi| check_linear(acc, g, base + lo, &dom.slice(lo, hi)));
+        let acc = par_chunks_varied(total, chunk, |acc, lo, hi| check_linear(acc, g, base + lo, &dom.slice(lo, hi)));
         rep.acc.merge(acc);
         base += total;
     }
@@ -307,7 +307,7 @@ pub fn run_c10(tier: Tier) -> Report {
     let total = dom.len();
     let mut base = 0;
     for &t in SUPPORTED_TRANSFERS.iter() {
-        let acc = par_chunks(total, 3 << 14, |acc, lo, hi| {
+        let acc = par_chunks_varied(total, 3 << 14, |acc, lo, hi| {
             let xs = dom.slice(lo, hi);
             check_rt(acc, t, base + lo, &xs);
             if lo == 0 && t == TC::HybridLogGamma {
